@@ -134,7 +134,7 @@ func configSinks(c *Ctx, rule string) []sinkResult {
 
 	// parseInterface: direct sinks
 	if pi := c.needFunc(rule, "internal/config", "parseInterface"); pi != nil {
-		ps := successPaths(c, rule, pi, nil)
+		ps := successPaths(c, rule, pi, inlineHelpers(c))
 		specs := []sinkSpec{specMaxInterval, specReachable, specRetransmit, specHopLimit}
 		res := make([]sinkResult, len(specs))
 		for i, sp := range specs {
@@ -1193,4 +1193,23 @@ func isPtrCompare(a an.PathAtom, typ string) bool {
 		return false
 	}
 	return x.Typ != nil && y.Typ != nil && strings.HasSuffix(typeStr(x.Typ), typ) && strings.HasSuffix(typeStr(y.Typ), typ)
+}
+
+// inlineHelpers: in parseInterface, loop-free module-local helpers (range
+// checks factored out, small parsers) are enumerated path by path; the four
+// glue callees keep their own analyses.
+func inlineHelpers(c *Ctx) map[*ssa.Function]bool {
+	skip := map[*ssa.Function]bool{}
+	for _, n := range []string{"parseMinInterval", "parseDefaultLifetime", "parsePreference", "parsePlugins"} {
+		if f := c.P.Func("internal/config", n); f != nil {
+			skip[f] = true
+		}
+	}
+	out := map[*ssa.Function]bool{}
+	for _, f := range c.srcFuncs() {
+		if f.Pkg != nil && f.Pkg.Pkg.Path() == PkgConfig && !skip[f] && inlineLoopFree(f) && f.Parent() == nil {
+			out[f] = true
+		}
+	}
+	return out
 }
